@@ -319,6 +319,10 @@ def check(ctx):
     r3(ctx, retsets)
     r4(ctx, retsets)
     ctx.note("End of Data formats per version are decided under C04.R2")
+    from specs import C04
+    with ctx.shared({"C04.R2": ("C13.R5", "a PDU is accepted only in the format of its own version byte (End of Data: 12 bytes for version 0, 24 for "
+                                "version 1), and R3 ties that byte to the negotiated version")}):
+        C04.r2_r3(ctx)
 
 
 PK = "rtrlib/rtr/packets.c"
